@@ -92,8 +92,15 @@ package parse
 
 // One side of a change, parsed (pgo.Parse over go/parser) and mapped back to the lines of the patch file.
 //@ func (p *parser) parsePatchVersion(name, f) (file, err)
-//@   trusted parses one side with pgo.Parse and records line positions in the file set (go/parser, go/token): summarised
+//@   requires p.fset != nil
+//@   at call pgo.Parse assert [C10,C13] the-text-of-this-side-is-what-is-parsed: arg0 == p.fset && arg1 == name && arg2 == f.Contents
+//@   ensures [C10,C13] the-result-is-what-this-text-parsed-to: err == nil ==> file == ret("pgo.Parse", 0, 0)
 //@   ensures err == nil ==> file != nil && fresh(file) && file.Node != nil && file.Node.val != nil
+//@   at call (*go/token.File).AddLineColumnInfo assert [C13,C19] a-line-is-mapped-back-to-its-own-place-in-the-patch: arg0 == fsFileOf(p.fset, nodePos(pfile.Node)) && arg1 == i.Offset && arg2 == fsPosition(p.fset, i.Pos).Filename && arg3 == fsPosition(p.fset, i.Pos).Line && arg4 == fsPosition(p.fset, i.Pos).Column
+//@   at call (*go/token.File).AddLineColumnInfo set linesMapped = linesMapped + 1
+//@   ensures [C13,C19] every-line-of-the-side-is-mapped-back: err == nil ==> linesMapped == old(linesMapped) + len(f.Lines)
+//@   loop 0
+//@     invariant linesMapped == old(linesMapped) + #k
 
 // The two sides of a change are exactly what their texts parse to - package clause, imports and code. The
 // only adjustment: when one side is a single expression and the other a statement list, the expression is
